@@ -98,31 +98,13 @@ theorem b2_szx_go (cfg : Cfg) (t : Req) (rs : List Resp) :
         rw [this]
         exact Nat.le_trans (Nat.min_le_left _ _) hle
 
-/-- the outstanding request of the Block1 loop carries the application's Block2 option (none, or
-the size hint); if it is a non-final block, the transfer is fragmented and bytes remain behind
-the block -/
-theorem b1_cur_facts {cfg : Cfg} {st : B1State} {cur : Req} (hinv : B1Inv cfg st)
-    (hcur : nextRequest cfg st = some cur) :
-    cur.block2 = hintOpt cfg ∧ ((sentBlock1 st cur).more = true →
-      cfg.payload.length > threshold cfg st.szx ∧
-      st.cursor * blockSize st.szx + blockSize st.szx < cfg.payload.length) := by
-  rw [nextRequest_eq hinv] at hcur
-  by_cases hf : cfg.payload.length > threshold cfg st.szx
-  · simp only [hf, ↓reduceIte, Option.some.injEq] at hcur
-    subst hcur
-    refine ⟨rfl, fun hsm => ⟨hf, ?_⟩⟩
-    simpa [sentBlock1] using hsm
-  · simp only [hf, ↓reduceIte, Option.some.injEq] at hcur
-    subst hcur
-    exact ⟨rfl, fun hsm => by simp [sentBlock1] at hsm⟩
-
 /-- what can follow a Block1 round, finer than `step_b1_cases`: an error, the loop goes on with
 the next block, or the upload phase ends with this response -/
 theorem step_b1_trichotomy (cfg : Cfg) (st : B1State) (cur : Req) (r : Resp) :
     (∃ e, step cfg (.b1 st cur) r = .done (.error e)) ∨
     ((sentBlock1 st cur).more = true ∧ ∃ t,
-      step cfg (.b1 st cur) r = enterB1 cfg { szx := (reduce t st.szx (st.cursor + 1)).1,
-                                               cursor := (reduce t st.szx (st.cursor + 1)).2 }) ∨
+      step cfg (.b1 st cur) r = enterB1 cfg { szx := (reduceB t st.szx (advance st cur)).1,
+                                               cursor := (reduceB t st.szx (advance st cur)).2 }) ∨
     step cfg (.b1 st cur) r = completeBlock2 cfg cur r := by
   cases ha : r.block1 with
   | none =>
@@ -217,8 +199,7 @@ theorem b2_pairwise_bound_go {cfg : Cfg} {ph : Phase} (h : PhaseOk cfg ph) (rs :
         intro q hq
         rcases step_b1_trichotomy cfg st cur r with ⟨e, he⟩ | ⟨hsm, t, ht⟩ | hcomp
         · rw [he]; simp [b2Opts]
-        · obtain ⟨hf, hmore⟩ := hfacts hsm
-          obtain ⟨cur', _, hc2⟩ := enterB1_of_inv (B1Inv.next h.1 hf hmore t)
+        · obtain ⟨cur', _, hc2⟩ := enterB1_of_inv (B1Inv.next h.1 h.2 hsm t)
           rw [ht, hc2] at ihb ⊢
           exact ihb trivial q hq
         · rw [hcomp]
@@ -312,18 +293,17 @@ theorem ok_upload_go {cfg : Cfg} (rs : List Resp) :
     simp only [Phase.outstanding, Option.toList_some, List.cons_append, List.nil_append,
       mem_b1Reqs_cons hcb2] at hok ⊢
     by_cases hsm : (sentBlock1 st cur).more = true
-    · obtain ⟨hf, hmore⟩ := hfacts hsm
-      -- the loop goes on: induction hypothesis, one response further
+    · -- the loop goes on: induction hypothesis, one response further
       have goOn : ∀ tz, step cfg (.b1 st cur) r = enterB1 cfg
-            { szx := (reduce tz st.szx (st.cursor + 1)).1,
-              cursor := (reduce tz st.szx (st.cursor + 1)).2 } →
+            { szx := (reduceB tz st.szx (advance st cur)).1,
+              cursor := (reduceB tz st.szx (advance st cur)).2 } →
           (∃ r' ∈ cur :: b1Reqs (go cfg (step cfg (.b1 st cur) r) rs).1, FinalReq r') ∨
           (∃ pre e suf st' cur', r :: rs = pre ++ e :: suf ∧
             phaseAfter cfg (.b1 st cur) pre = .b1 st' cur' ∧
             (sentBlock1 st' cur').more = true ∧ EndsUploadEarly e ∧
             step cfg (.b1 st' cur') e = completeBlock2 cfg cur' e) := by
         intro tz hstep
-        have hnext := B1Inv.next hinv hf hmore tz
+        have hnext := B1Inv.next hinv hcur hsm tz
         obtain ⟨cur', hc1, hc2⟩ := enterB1_of_inv hnext
         rw [hstep, hc2] at hok
         rcases ih hnext hc1 o hok with ⟨r', hr', hfin⟩ | ⟨pre, e, suf, st', cur'', hrs, hph, h3, h4, h5⟩
@@ -428,7 +408,7 @@ theorem completeBlock2_ok_code (cfg : Cfg) (t : Req) (e : Resp) (rs : List Resp)
     by_cases hm : b.more = true
     · by_cases hn : b.num ≠ 0
       · simp [hm, hn] at h
-      · by_cases hv : b.validFor e.payload.length = true
+      · by_cases hv : b.okFor e.payload.length = true
         · simp only [hm, Bool.not_true, Bool.false_eq_true, ↓reduceIte, hn, hv] at h
           unfold enterB2 at h
           split at h
@@ -457,5 +437,126 @@ theorem completeBlock2_nomore (cfg : Cfg) (t : Req) (r : Resp)
     rw [if_neg hg]
     left
     simp [hm]
+
+-- the Block2 loop never asks for the same block twice ------------------------------------------------
+
+/-- the byte offsets asked for by the requests of the Block2 loop (those that ask for a LATER block
+of the response: a Block2 option with a block number other than 0), in order -/
+def loopStarts (reqs : List Req) : List Nat :=
+  (b2Opts (reqs.filter (fun r => !isB1Phase r))).map (·.start)
+
+theorem loopStarts_cons_b1 {cur : Req} (h : isB1Phase cur = true) (rest : List Req) :
+    loopStarts (cur :: rest) = loopStarts rest := by
+  simp [loopStarts, h]
+
+theorem loopStarts_cons_loop {cur : Req} {q : BlockOpt} (h : isB1Phase cur = false)
+    (hq : cur.block2 = some q) (rest : List Req) :
+    loopStarts (cur :: rest) = q.start :: loopStarts rest := by
+  simp [loopStarts, h, b2Opts, hq]
+
+/-- a round of the Block2 loop ends the transfer, or a NON-EMPTY payload was appended and the loop
+goes on (a valid non-final block is never empty -- for BERT blocks a fix) -/
+theorem step_b2_progress (cfg : Cfg) (t : Req) (a : Asm) (cur : Req) (r : Resp) :
+    (∃ o, step cfg (.b2 t a cur) r = .done o) ∨
+    (∃ b2, r.payload ≠ [] ∧ step cfg (.b2 t a cur) r
+        = enterB2 cfg t { a with payload := a.payload ++ r.payload, block2 := b2 }) := by
+  cases hb : r.block2 with
+  | none => left; exact ⟨_, step_b2_none hb⟩
+  | some b2 =>
+    rw [step_b2_some hb]
+    by_cases hg : szxGrows cur b2 = true
+    · left; exact ⟨_, by rw [if_pos hg]⟩
+    rw [if_neg hg]
+    by_cases hc : r.code ≠ a.code
+    · left; exact ⟨_, by rw [if_pos hc]⟩
+    rw [if_neg hc]
+    by_cases hv : b2.okFor r.payload.length = true
+    · by_cases hs : b2.start ≠ a.payload.length
+      · left; exact ⟨.error .notImplemented, by simp [hv, hs]⟩
+      · by_cases he : r.etag ≠ a.etag
+        · left; exact ⟨.error .resourceChanged, by simp [hv, hs, he]⟩
+        · by_cases hm : b2.more = true
+          · right
+            exact ⟨b2, payload_ne_nil_of_valid hm hv, by simp [hv, hs, he, hm]⟩
+          · left
+            exact ⟨.ok { code := a.code, etag := a.etag, payload := a.payload ++ r.payload },
+              by simp [hv, hs, he, hm]⟩
+    · left; exact ⟨.error .unexpectedBlock2, by simp [hv]⟩
+
+/-- inside the Block2 loop: the offsets asked for increase strictly, from the bytes assembled so
+far on -/
+theorem b2_starts_go (cfg : Cfg) (t : Req) (rs : List Resp) :
+    ∀ (a : Asm) (cur : Req), PhaseOk cfg (.b2 t a cur) →
+      List.Pairwise (· < ·) (loopStarts (go cfg (.b2 t a cur) rs).1) ∧
+      ∀ x ∈ loopStarts (go cfg (.b2 t a cur) rs).1, a.payload.length ≤ x := by
+  induction rs with
+  | nil =>
+    intro a cur hok
+    rw [go_nil]
+    obtain ⟨cur', hc1, _, _, _, hq⟩ := enterB2_of_inv cfg t hok.1
+    rw [hok.2] at hc1; cases hc1
+    have hst : ((nextOpt a).reducedTo cfg.szx0).start = a.payload.length := by
+      rw [BlockOpt.reducedTo_start, nextOpt_start hok.1]
+    simp only [Phase.outstanding, Option.toList_some]
+    by_cases hb : isB1Phase cur = true
+    · rw [loopStarts_cons_b1 hb]; simp [loopStarts, b2Opts]
+    · rw [loopStarts_cons_loop (by simpa using hb) hq, hst]; simp [loopStarts, b2Opts]
+  | cons r rs ih =>
+    intro a cur hok
+    rw [go_cons]
+    obtain ⟨cur', hc1, _, _, _, hq⟩ := enterB2_of_inv cfg t hok.1
+    rw [hok.2] at hc1; cases hc1
+    have hst : ((nextOpt a).reducedTo cfg.szx0).start = a.payload.length := by
+      rw [BlockOpt.reducedTo_start, nextOpt_start hok.1]
+    simp only [Phase.outstanding, Option.toList_some, List.cons_append, List.nil_append]
+    suffices h : List.Pairwise (· < ·) (loopStarts (go cfg (step cfg (.b2 t a cur) r) rs).1) ∧
+        ∀ x ∈ loopStarts (go cfg (step cfg (.b2 t a cur) r) rs).1, a.payload.length < x by
+      by_cases hb : isB1Phase cur = true
+      · rw [loopStarts_cons_b1 hb]
+        exact ⟨h.1, fun x hx => Nat.le_of_lt (h.2 x hx)⟩
+      · rw [loopStarts_cons_loop (by simpa using hb) hq, hst]
+        refine ⟨List.pairwise_cons.mpr ⟨h.2, h.1⟩, ?_⟩
+        intro x hx
+        rcases List.mem_cons.mp hx with rfl | hx
+        · exact Nat.le_refl _
+        · exact Nat.le_of_lt (h.2 x hx)
+    have hok' := PhaseOk.step (ph := .b2 t a cur) hok r
+    rcases step_b2_progress cfg t a cur r with ⟨o, ho⟩ | ⟨b2, hne, hstep⟩
+    · rw [ho]; simp [loopStarts, b2Opts]
+    · rw [hstep] at hok' ⊢
+      rcases enterB2_cases cfg t { a with payload := a.payload ++ r.payload, block2 := b2 } with
+        he | ⟨cur', he, _⟩
+      · rw [he]; simp [loopStarts, b2Opts]
+      · rw [he] at hok' ⊢
+        obtain ⟨h1, h2⟩ := ih _ cur' hok'
+        refine ⟨h1, fun x hx => ?_⟩
+        have := h2 x hx
+        simp only [List.length_append] at this
+        have hpos : 0 < r.payload.length := List.length_pos_iff.mpr hne
+        omega
+
+/-- **Against any response sequence the requests of the Block2 loop ask for strictly increasing
+byte offsets**: the same block is never asked for twice. -/
+theorem loop_starts_go {cfg : Cfg} {ph : Phase} (h : PhaseOk cfg ph) (rs : List Resp) :
+    List.Pairwise (· < ·) (loopStarts (go cfg ph rs).1) := by
+  induction rs generalizing ph with
+  | nil =>
+    cases ph with
+    | done o => simp [loopStarts, b2Opts]
+    | b1 st cur =>
+      rw [go_nil]
+      simp only [Phase.outstanding, Option.toList_some]
+      rw [loopStarts_cons_b1 (isB1Phase_hint cfg (b1_cur_facts h.1 h.2).1)]
+      simp [loopStarts, b2Opts]
+    | b2 t a cur => exact (b2_starts_go cfg t [] a cur h).1
+  | cons r rs ih =>
+    cases ph with
+    | done o => simp [loopStarts, b2Opts]
+    | b2 t a cur => exact (b2_starts_go cfg t (r :: rs) a cur h).1
+    | b1 st cur =>
+      rw [go_cons]
+      simp only [Phase.outstanding, Option.toList_some, List.cons_append, List.nil_append]
+      rw [loopStarts_cons_b1 (isB1Phase_hint cfg (b1_cur_facts h.1 h.2).1)]
+      exact ih (PhaseOk.step (ph := .b1 st cur) h r)
 
 end Aiocoap.BwClient
